@@ -63,6 +63,12 @@ def corpus(tier, seed):
     for n in (500, 1000, 4000):
         add('periodic literal', 'a' * n, 'a' * n)
         add('periodic literal', 'ab' * (n // 2), 'ab' * (n // 2) + 'x')
+    for n in (22, 30, 45):
+        add('word run then metacharacter', 'a' * n + '+', 'a' * n)
+        add('word run then metacharacter', 'a' * n + '$', 'b' * n)
+        add('word run then metacharacter', ' '.join(['word'] * (n // 2)) + '?', 'word ' * n)
+    add('word run then metacharacter', 'transaction_identifier_number_of_the_payment$', 'transaction_identifier_number_of_the_payment')
+    add('word run then metacharacter', 'the quick brown fox jumps over the lazy dog again and again and again.', 'the quick brown fox')
     add('invalid pattern', r'(a', 'aaa')
     add('invalid pattern', r'a{2,1}', 'aaa')
     add('non-string', None, 'aaa')
